@@ -263,6 +263,33 @@ class Gen:
                 sh = self.shareable(visible, False)
                 if sh:
                     mid['params'].append(['c', ['in', rng.choice(sh)]])
+            if self.p.get('rec_inner') and self.budget >= 3 and rng.random() < 0.6:
+                # a switch (or one-of) strictly inside the subgraph: decider and cases depend on subgraph nodes
+                if rng.random() < 0.75:
+                    dn = self.new_node(kind='decider')
+                    self.flags[dn['id']].add('private_rec')
+                    dn['params'].append(['a', ['in', rng.choice(sub)]])
+                    labs = [f'L{i}' for i in range(rng.randint(1, 3))]
+                    dn['plan']['labels'] = labs
+                    self.finish(dn)
+                    cs = []
+                    for lab in labs:
+                        c = self.new_node()
+                        self.flags[c['id']].update({'private_rec', 'case'})
+                        c['params'].append(['a', ['in', rng.choice(sub)]])
+                        self.finish(c)
+                        cs.append([lab, c['id']])
+                    self.sw += 1
+                    mid['params'].append(['s', ['sw', f'sw{self.sw}', dn['id'], cs]])
+                else:
+                    cands = []
+                    for _i in range(rng.randint(1, 2)):
+                        c = self.new_node()
+                        self.flags[c['id']].update({'private_rec', 'cand'})
+                        c['params'].append(['a', ['in', rng.choice(sub)]])
+                        self.finish(c)
+                        cands.append(c['id'])
+                    mid['params'].append(['o', ['oneof', cands]])
             if nested_ok and self.budget >= 3 and rng.random() < self.p.get('p_rec_nested', 0.2):
                 mid['params'].append(['n', self.make_inner_rec(sub, visible)])
             self.decorate(mid, allow_fail=rng.random() < 0.3)
